@@ -568,9 +568,11 @@ class Trim(Family):
             if i % 8 == 2:
                 # sample size 10: the tessellator's accumulated parameter u += 1/9 ends at 1.0000000000000002 (the vertices of the
                 # last row fail the [0, 1] check of Surface.tessellate and keep their sampled position)
-                k = rng.choice([1, 3])
+                k = rng.choice([1, 3]) if i % 16 != 2 else 1      # (the accumulated step overshoots at spacing 1)
                 su, sv = (10, k * rng.randint(2, 6 // k) + 1) if i % 16 == 2 else (k * rng.randint(2, 6 // k) + 1, 10)
             shape = rng.choice(["rect", "rect", "triangle", "convex", "lshape", "over", "aligned", "spline", "two", "ushape"])
+            if i % 16 == 2:
+                shape = "over"     # a trim leaving the domain through u = 1 on the overshooting 10-sample grid: intersection vertices on the boundary
             rev = None
             r = rng.random()
             if r < 0.15:
@@ -621,6 +623,8 @@ class Trim(Family):
                     p = p[::-1]            # clockwise trims
                 trims.append({"kind": rng.choice(["freeform", "poly1"]), "pts": p + [p[0]], "reversed": rev})
             mode = rng.choice(["surface", "surface", "direct"])
+            if i % 16 == 2:
+                mode = "surface"
             c = {"mode": mode, "su": su, "sv": sv, "k": k, "trims": trims, "shape": shape}
             if mode == "surface":
                 c["sp"] = gen_spec(rng, maxdeg=2)
